@@ -70,11 +70,19 @@ func (a Ary[LEN]) ReadFrom(r io.Reader) (n int64, err error) {
 		panic(errors.New("the contents of the Ary are not addressable"))
 	}
 	if array.Cap() < int(Len) {
-		array.Set(reflect.MakeSlice(array.Type(), int(Len), int(Len)))
+		// The declared length comes from the peer: only the first maxPreallocElems
+		// elements are allocated before any of them has been read.
+		first := min(int(Len), maxPreallocElems)
+		array.Set(reflect.MakeSlice(array.Type(), first, first))
 	} else {
 		array.SetLen(int(Len))
 	}
 	for i := 0; i < int(Len); i++ {
+		if i == array.Len() {
+			// every allocated element has been read: at most double the slice
+			more := min(int(Len)-i, i)
+			array.Set(reflect.AppendSlice(array, reflect.MakeSlice(array.Type(), more, more)))
+		}
 		elem := array.Index(i)
 		nn, err := elem.Addr().Interface().(FieldDecoder).ReadFrom(r)
 		n += nn
@@ -84,6 +92,12 @@ func (a Ary[LEN]) ReadFrom(r io.Reader) (n int64, err error) {
 	}
 	return n, err
 }
+
+// maxPreallocElems is the number of elements Ary.ReadFrom allocates for a declared
+// length before any element has been read. Longer arrays grow as their elements
+// arrive, at most doubling each time, so that a few bytes of input declaring
+// 2^31-1 elements fail with an EOF instead of allocating gigabytes.
+const maxPreallocElems = 1024
 
 func Array(ary any) Field {
 	return Ary[VarInt]{Ary: ary}
